@@ -322,15 +322,17 @@ Section Oracle.
         X-Forwarded-For, X-Forwarded-Host, X-Forwarded-Proto from the clone;
       - rewriteRequest deletes X-Forwarded-Method, X-Forwarded-Uri, X-Forwarded-Path;
       - then the block that re-creates the forwarding information from [proxyReq.In] (the request
-        after the middleware).  Values are what arrives (net/http trims optional white space). *)
+        after the middleware); X-Forwarded-For and Forwarded are list fields: all their field lines
+        count, joined by ", " (fix: f228b67; before it only the first line was extended).
+        Values are what arrives (net/http trims optional white space). *)
   Definition upstream_cleared (h : hdrs) : hdrs :=
     fold_left (fun acc n => del n acc) [FWD; XFF; XFH; XFP; XFM; XFU; XFPath] h.
 
   Definition upstream_headers (c : conn) (h : hdrs) : hdrs :=
     let xfh := get XFH h in
     let xfp := get XFP h in
-    let xff := get XFF h in
-    let fw := get FWD h in
+    let xff := join ", " (values XFF h) in
+    let fw := join ", " (values FWD h) in
     let out := upstream_cleared h in
     if nonempty xff || nonempty xfp || nonempty xfh then
       set_hdr XFH (http_trim (if nonempty xfh then xfh else c_host c))
